@@ -333,7 +333,7 @@ func (g *G) GuardedByGen(target Loc, holds func(cond ast.Expr, truth bool) bool,
 		for k, sc := range s.b.Succs {
 			h := held
 			if cond != nil && !h {
-				if Implied(cond, k == 0, holds) {
+				if Implied(ExpandBoolLocals(g.Info, g.Body, cond), k == 0, holds) {
 					h = true
 				}
 			}
@@ -468,4 +468,96 @@ func IntCompare(info *types.Info, cond ast.Expr, truth bool, isE func(ast.Expr) 
 		return IntFact{Lo: p(c)}, true
 	}
 	return IntFact{}, false
+}
+
+// ExpandBoolLocals replaces, inside cond, every identifier of a bool-typed local
+// that has exactly one definition in scope (`x := e`, `var x = e`) and is never
+// assigned again by (e), recursively (bounded). A condition routed through a
+// named local (`over := a && b; if over {..}`) then yields the same facts as
+// the inline condition. The operands of e are assumed not to change between
+// the definition and the test (single-definition locals next to their use).
+func ExpandBoolLocals(info *types.Info, scope ast.Node, cond ast.Expr) ast.Expr {
+	if info == nil || scope == nil || cond == nil {
+		return cond
+	}
+	defs := map[types.Object]ast.Expr{}
+	count := map[types.Object]int{}
+	declared := map[types.Object]bool{} // declared (:= / var) inside scope
+	note := func(lhs ast.Expr, rhs ast.Expr) {
+		id, ok := lhs.(*ast.Ident)
+		if !ok {
+			return
+		}
+		obj := info.ObjectOf(id)
+		if obj == nil {
+			return
+		}
+		count[obj]++
+		defs[obj] = rhs
+		if info.Defs[id] != nil {
+			declared[obj] = true
+		}
+	}
+	ast.Inspect(scope, func(n ast.Node) bool {
+		switch x := n.(type) {
+		case *ast.AssignStmt:
+			for i, l := range x.Lhs {
+				if len(x.Lhs) == len(x.Rhs) {
+					note(l, x.Rhs[i])
+				} else {
+					note(l, nil)
+				}
+			}
+		case *ast.ValueSpec:
+			for i, nm := range x.Names {
+				if i < len(x.Values) {
+					note(nm, x.Values[i])
+				} else {
+					note(nm, nil)
+				}
+			}
+		case *ast.IncDecStmt:
+			note(x.X, nil)
+		case *ast.RangeStmt:
+			if x.Key != nil {
+				note(x.Key, nil)
+			}
+			if x.Value != nil {
+				note(x.Value, nil)
+			}
+		}
+		return true
+	})
+	var expand func(e ast.Expr, depth int) ast.Expr
+	expand = func(e ast.Expr, depth int) ast.Expr {
+		if depth > 4 {
+			return e
+		}
+		switch x := e.(type) {
+		case *ast.ParenExpr:
+			return &ast.ParenExpr{X: expand(x.X, depth)}
+		case *ast.UnaryExpr:
+			if x.Op == token.NOT {
+				return &ast.UnaryExpr{Op: x.Op, OpPos: x.OpPos, X: expand(x.X, depth)}
+			}
+		case *ast.BinaryExpr:
+			if x.Op == token.LAND || x.Op == token.LOR {
+				return &ast.BinaryExpr{X: expand(x.X, depth), Op: x.Op, OpPos: x.OpPos, Y: expand(x.Y, depth)}
+			}
+		case *ast.Ident:
+			obj := info.ObjectOf(x)
+			if obj == nil || count[obj] != 1 || defs[obj] == nil || !declared[obj] {
+				return e
+			}
+			if b, ok := obj.Type().Underlying().(*types.Basic); !ok || b.Kind() != types.Bool {
+				return e
+			}
+			if _, isVar := obj.(*types.Var); !isVar {
+				return e
+			}
+			return &ast.ParenExpr{X: expand(defs[obj], depth+1)}
+		}
+		return e
+	}
+	return expand(cond, 0)
 }
